@@ -55,4 +55,6 @@ Definition bad_d : datum F64 := [VNum (ndy 5 (-1)); VBool true].
 Example C12_example :
   single_path t12 /\ snd (fill t12 bad_d (ndy 1 0)) = Raise /\ snd (fill t12 good_d (ndy 1 0)) = Done
   /\ snd (fill (fst (fill t12 good_d (ndy 1 0))) bad_d (ndy 1 0)) = Raise.
-Proof. repeat split; vm_compute; auto; repeat split; reflexivity. Qed.
+Proof.
+  split; [vm_compute; repeat split; reflexivity | split; [vm_compute; reflexivity | split; vm_compute; reflexivity]].
+Qed.
